@@ -155,7 +155,7 @@ class _Rand(ConcMk):
 def cases(tier):
     th = tier == "thorough"
     out = []
-    hs = CL.histories(3, False) if th else CL.histories(2, False, ops=["set_pos", "set_mom", "copy", "copy_ro", "switch"])
+    hs = CL.histories(3, False) if th else CL.histories(2, False, ops=["set_pos", "set_mom", "copy", "copy_ro", "view_ro", "switch"])
     for sname in CL.SYSTEMS:
         for conv in (("plain", "aux") if th or sname in ("euclid", "diagonal", "constr") else ("plain",)):
             chunks = [hs[i:i + 14] for i in range(0, len(hs), 14)]
